@@ -30,6 +30,7 @@ static CaseResult run_case(Tape &t)
 	if (!R.cfg.srv_domain.empty()) r.cls("wildcard-domain");
 	if (R.n_qr) r.cls("response-shaped-datagram-sent");
 	if (R.n_hsreq) r.cls("handshake-type-request-mid-session");
+	if (R.n_optswitch) r.cls("lazy-mode-switched-mid-session");
 	if (R.n_infra) r.cls("infrastructure-query:ns-www-A-or-NS");
 	if (R.n_red_altdomain) r.cls("same-payload-under-another-sub-domain");
 	return r;
